@@ -425,10 +425,14 @@ func mergeResults(st *runStats, res []Result) {
 }
 
 func workerBinary(race bool) string {
-	if race {
-		return filepath.Join(VerifDir, "bin", "vcheck-race")
+	dir := filepath.Join(VerifDir, "bin")
+	if d := os.Getenv("VERIF_BIN_DIR"); d != "" {
+		dir = d // exploratory sweeps run from a private copy of the binaries
 	}
-	return filepath.Join(VerifDir, "bin", "vcheck")
+	if race {
+		return filepath.Join(dir, "vcheck-race")
+	}
+	return filepath.Join(dir, "vcheck")
 }
 
 func runWorker(scratch string, idx int, b Batch) []Result {
